@@ -187,6 +187,23 @@ class Heap:
                                        z3.Int("%s_%s%d_val%d" % (pfx, c, i, k)))
         return h
 
+    def apply_shape(self, shape):
+        """make the containment structure concrete (cube split on the shape; links stay symbolic).
+        shape: {(parent class, parent local slot, list field): [child local slots]}; every ownership
+        list of a live object that is not mentioned is empty; back pointers follow."""
+        u = self.u
+        for (P, lst, C, back) in OWNERSHIP:
+            for c in range(u.live.get(C, 0)):
+                self.sc[(C, back)][c] = NONE_ID
+            for p in range(u.live.get(P, 0)):
+                kids = list(shape.get((P, p, lst), []))
+                cap = u.cap(P, lst)
+                assert len(kids) <= cap, "shape exceeds list capacity"
+                self.ls[(P, lst)][p] = (len(kids), [u.gid(C, k) for k in kids] + [NONE_ID] * (cap - len(kids)))
+                for k in kids:
+                    self.sc[(C, back)][k] = u.gid(P, p)
+        return self
+
     def copy(self):
         h = Heap(self.u)
         h.sc = {k: list(v) for k, v in self.sc.items()}
@@ -239,7 +256,7 @@ class Heap:
         u = self.u
         key = u.keys[k]
         if key == ".NS":
-            return [ATOMS.intern("DEFAULT"), ATOMS.intern("EDIF")]
+            return [ATOMS.intern(x) for x in getattr(u, "ns_values", ("DEFAULT", "EDIF"))]
         return u.atom_ids
 
     def _live_in(self, t, cls):
